@@ -36,7 +36,7 @@ import (
 
 type opFn func(args []string) []string
 
-var ops = map[string]opFn{"hist": runHist, "salgo": runSAlgo, "fwdmax": runFwdMax}
+var ops = map[string]opFn{"hist": runHist, "salgo": runSAlgo, "fwdmax": runFwdMax, "vtime": runVTime}
 
 func main() {
 	flag.Parse()
@@ -60,6 +60,9 @@ func main() {
 	g := hx.NewGen(*hx.Seed)
 	if hx.Want("hist") {
 		genHist(g, out)
+	}
+	if hx.Want("vtime") {
+		genVTime(out)
 	}
 	if hx.Want("fwdmax") {
 		for i, noup := range []string{"0", "1"} {
@@ -921,4 +924,41 @@ func runFwdMax(args []string) (res []string) {
 		}
 	}
 	return []string{"ok"}
+}
+
+// ---------------------------------------------------------------- validity window, function level
+
+// vtime args: ValidAfter, ValidBefore, time (Unix seconds)      output: 1 | 0
+func runVTime(args []string) []string {
+	va, _ := strconv.ParseUint(args[0], 10, 64)
+	vb, _ := strconv.ParseUint(args[1], 10, 64)
+	t, _ := strconv.ParseInt(args[2], 10, 64)
+	return []string{hx.B01(certutil.ValidateSSHCertTime(&ssh.Certificate{ValidAfter: va, ValidBefore: vb}, time.Unix(t, 0)))}
+}
+
+// every pair of window ends from a grid around 0, 2^31, 2^32, 2^63 and 2^64, at the times one
+// second before, at, and one second after each end
+func genVTime(out *hx.Out) {
+	ends := []uint64{0, 1, 2, 1000, 1<<31 - 1, 1 << 31, 1<<32 - 1, 1 << 32, 1<<63 - 2, 1<<63 - 1, 1 << 63, 1<<63 + 1, 1<<64 - 2, 1<<64 - 1}
+	n := 0
+	for _, va := range ends {
+		for _, vb := range ends {
+			seen := map[int64]bool{}
+			for _, e := range []uint64{va, vb} {
+				for _, d := range []int64{-1, 0, 1} {
+					if e > 1<<63-1 {
+						e = 1<<63 - 1
+					}
+					t := int64(e) + d
+					if t < 1 || (d == 1 && e == 1<<63-1) || seen[t] {
+						continue
+					}
+					seen[t] = true
+					args := []string{strconv.FormatUint(va, 10), strconv.FormatUint(vb, 10), strconv.FormatInt(t, 10)}
+					out.Case(fmt.Sprintf("vt%d", n), "vtime", args, runVTime(args))
+					n++
+				}
+			}
+		}
+	}
 }
